@@ -230,6 +230,9 @@ class Ctx:
         else:
             lines = [(x if isinstance(x, str) else json.dumps(x)) + "\n" for x in items]
         nproc = max(1, min(nproc, len(lines)))
+        # the timeout only exists to end a hung harness: fewer processes (loaded machine, VERIF_JOBS) mean longer shards, and the
+        # thorough tier replays an order of magnitude more
+        timeout = int(timeout * min(4.0, max(1.0, 16.0 / nproc)) * (6 if self.tier == "thorough" else 1))
         shards = []
         for i in range(nproc):
             pth = os.path.join(self.work, "%s.in.%d" % (name, i))
